@@ -18,7 +18,7 @@ LEVEL = "proof"
 LEAN_MODULES = ["Exetera.Props.C09", "Exetera.Witness.C09"]
 THEOREMS = []
 EXHAUSTIVE = {"quick": True, "thorough": True}
-CASE_TIMEOUT = 30
+CASE_TIMEOUT = 240    # first numba compile on a loaded machine; an alarm landing inside the compiler corrupts it
 MODES = {"quick": ["jit"], "thorough": ["jit", "nojit", "bounds"], "search": ["jit", "nojit"]}
 MODE_DIFF_IS_VIOLATION = False
 RULE = ("exhaustive (seed independent): a 5-column frame mixing every field type (indexed strings with empty and 2-byte "
@@ -188,6 +188,16 @@ def gen_cases(tier, rng):
                     st = flt_step([b * (1 + cnt % 3) * (-1 if cnt % 5 == 0 else 1) for b in bits], "num", ddf=ddf,
                                   fdtype=["int64", "int8", "float64", "int32"][cnt % 4])
                 cases.append(frame_case(std_frame(n, cnt % 4), [st], n=cnt))
+    # ---- frames: filters of the wrong length (0, n-1, n+1), indexed column first and last
+    for n in range(nf + 1):
+        for m in sorted({0, max(n - 1, 0), n + 1} - {n}):
+            for val in (0, 1):
+                for ddf in (None, "d0"):
+                    for rev in (False, True):
+                        cnt += 1
+                        cols = std_frame(n, cnt % 4)
+                        cases.append(frame_case(cols[::-1] if rev else cols, [flt_step([val] * m, "bool", ddf=ddf)], n=cnt,
+                                                why="filter length"))
     # ---- frames: all index maps [k] -> [n]
     for n in range(ni + 1):
         for k in range(n + 2):
